@@ -46,11 +46,13 @@ enum {
 	Q_TEXT_PAC_MOVES_ROW,
 	Q_EDM_ENM_IN_TEXT_MODE,
 	Q_CR_IN_POP_PAINT,
+	Q_CR_POP_ON_SHOWS_ROW,
 	Q_NO_EXTENDED_CHARS,
 	Q_FON_NOT_SPACING,
 	Q_ATTR_CODE_NO_BACKSPACE,
 	Q_MIDROW_ITALICS_WHITE,
 	Q_PEN_ATTRIBUTES,
+	Q_ATTRS_SURVIVE_ROW_END,
 	Q_TO_DESTRUCTIVE,
 	Q_PAC_INDENT_DESTRUCTIVE,
 	Q_CURSOR_COL33,
@@ -71,11 +73,13 @@ static const char *const m_quirk_name[Q_COUNT] = {
 	"Q-text-PAC-moves-row",
 	"Q-EDM-ENM-in-text-mode",
 	"Q-CR-in-pop-on-paint-on",
+	"Q-CR-pop-on-shows-row",
 	"Q-no-extended-chars",
 	"Q-FON-not-spacing",
 	"Q-attr-code-no-backspace",
 	"Q-midrow-italics-white",
 	"Q-pen-attributes",
+	"Q-attributes-survive-row-end",
 	"Q-TO-destructive",
 	"Q-PAC-indent-destructive",
 	"Q-cursor-column-33",
@@ -100,17 +104,19 @@ static const uint8_t m_quirk_open[Q_COUNT] = {
 	QK_REPAIRED,  /* Q-EOC-erases-hidden                     C08-05 */
 	QK_OPEN,      /* Q-TR-no-clear */
 	QK_OPEN,      /* Q-text-PAC-moves-row */
-	QK_REPAIRED,  /* Q-EDM-ENM-in-text-mode                  C08-11 */
+	QK_REPAIRED,  /* Q-EDM-ENM-in-text-mode                  C08-10 */
 	QK_OPEN,      /* Q-CR-in-pop-on-paint-on */
+	QK_REPAIRED,  /* Q-CR-pop-on-shows-row                   C08-14 */
 	QK_OPTION,    /* Q-no-extended-chars: EIA-608-B 6.4.2 extended characters are optional */
 	QK_REPAIRED,  /* Q-FON-not-spacing                       C08-06 */
-	QK_REPAIRED,  /* Q-attr-code-no-backspace                C08-12 */
+	QK_REPAIRED,  /* Q-attr-code-no-backspace                C08-11 */
 	QK_REPAIRED,  /* Q-midrow-italics-white                  C08-07 */
 	QK_OPEN,      /* Q-pen-attributes */
+	QK_REPAIRED,  /* Q-attributes-survive-row-end            C08-13 */
 	QK_REPAIRED,  /* Q-TO-destructive                        C08-08 */
 	QK_REPAIRED,  /* Q-PAC-indent-destructive                C08-09 */
 	QK_REPAIRED,  /* Q-cursor-column-33                      C08-01 */
-	QK_REPAIRED,  /* Q-codes-before-style                    C08-10 */
+	QK_REPAIRED,  /* Q-codes-before-style: reachable by generated histories only through Q-channel-state-shared (C08-04) */
 };
 
 #define QBIT(q) (1u << (q))
@@ -615,7 +621,7 @@ static void m_carriage_return(struct model *m, struct m_chan *c)
 		m_roll(c, &c->mem[c->disp], c->base - c->depth + 1 < 0 ? 0 : c->base - c->depth + 1, c->base);
 		if (c->lb) m_clear_row(&c->mem[c->disp ^ 1], c->row);
 		c->col = 1; c->stuck = 0;
-		if (!QON(m, Q_PEN_ATTRIBUTES)) c->pen = c->pac = m_default_attr;   /* C.14: row created by CR, no PAC: white, non-underlined, ... */
+		if (!QON(m, Q_ATTRS_SURVIVE_ROW_END)) c->pen = c->pac = m_default_attr;   /* C.14: row created by CR, no PAC: white, non-underlined, ... */
 		c->unflushed = 0;
 		return;
 	}
@@ -628,11 +634,20 @@ static void m_carriage_return(struct model *m, struct m_chan *c)
 			if (c->lb) m_clear_row(&c->mem[c->disp ^ 1], 14);
 		}
 		c->col = 1; c->stuck = 0;
-		if (!QON(m, Q_PEN_ATTRIBUTES)) c->pen = c->pac = m_default_attr;
+		if (!QON(m, Q_ATTRS_SURVIVE_ROW_END)) c->pen = c->pac = m_default_attr;
 		c->unflushed = 0;
 		return;
 	}
 	/* (f)(2)(i), (f)(3)(i) [DC]: "Carriage Returns have no effect" in pop-on and paint-on style */
+	if (QON(m, Q_CR_POP_ON_SHOWS_ROW) && c->style == S_POP) {
+		/* caption.c copied the cursor row of the non-displayed memory into the displayed memory when CR arrived
+		 * with the cursor on or below the last row of the roll-up window it remembers: text loaded in pop-on
+		 * style became visible without End Of Caption (and without a caption event) */
+		int last = c->irow1 + c->iroll - 1;
+		if (last > 14) last = 14;
+		if (!c->cursor_known) m_poison(m, c, "CR (as implemented) with unknown cursor");
+		if (c->row >= last) memcpy(c->mem[c->disp].c[c->row], c->mem[c->disp ^ 1].c[c->row], sizeof c->mem[0].c[0]);
+	}
 	if (QON(m, Q_CR_IN_POP_PAINT)) {
 		/* caption.c keeps treating the rows of the last roll-up window (default rows 13-15) as a
 		 * window in every style: above its base row CR moves the cursor down one row, on or below
@@ -646,7 +661,6 @@ static void m_carriage_return(struct model *m, struct m_chan *c)
 			c->row++;
 		} else {
 			struct m_mem *page = (c->style == S_POP) ? H : D;
-			if (c->lb) memcpy(D->c[c->row], H->c[c->row], sizeof D->c[0]);   /* update(): also in pop-on style */
 			for (r = c->irow1; r < c->irow1 + c->iroll - 1 && r < 14; r++) memcpy(page->c[r], page->c[r + 1], sizeof page->c[r]);
 			m_clear_row(m_target(c), c->row);
 			if (c->lb && c->style != S_POP) m_clear_row(D, c->row);
@@ -692,6 +706,7 @@ static void m_misc(struct model *m, int f, int chbit, int cmd)
 				m_erase(&cc->mem[0]); m_erase(&cc->mem[1]);
 				cc->depth = n; cc->base = 14; cc->row = 14; cc->col = 1; cc->stuck = 0;
 				cc->iroll = n; cc->irow1 = 14 - n + 1;
+				if (!QON(m, Q_ATTRS_SURVIVE_ROW_END)) cc->pen = cc->pac = m_default_attr;   /* restarts on an empty row 15 */
 			} else if (n < cc->depth) {
 				/* (f)(1)(iv) [RU]: rows turned off "should also be erased from memory" */
 				int r;
@@ -710,11 +725,11 @@ static void m_misc(struct model *m, int f, int chbit, int cmd)
 			cc->style = S_ROLL; cc->depth = n; cc->base = 14; cc->row = 14; cc->col = 1; cc->stuck = 0;
 			cc->cursor_known = 1;
 			cc->iroll = n; cc->irow1 = 14 - n + 1;
-			if (!QON(m, Q_PEN_ATTRIBUTES)) cc->pen = cc->pac = m_default_attr;
+			if (!QON(m, Q_ATTRS_SURVIVE_ROW_END)) cc->pen = cc->pac = m_default_attr;
 			if (cc->poisoned) {
 				/* the pen of caption.c survives the restart; what happened to it while the channel was outside the rule texts is not modelled */
 				cc->poisoned = 0; cc->poison_why = NULL;
-				if (QON(m, Q_PEN_ATTRIBUTES)) cc->pen.unk = U_FG | U_IT | U_UL | U_FL | U_BG;
+				if (QON(m, Q_ATTRS_SURVIVE_ROW_END)) cc->pen.unk = U_FG | U_IT | U_UL | U_FL | U_BG;
 			}
 		}
 		if (!txt || (m_mem_empty(&cc->mem[0]) && m_mem_empty(&cc->mem[1]))) cc->unflushed = 0;
@@ -736,12 +751,12 @@ static void m_misc(struct model *m, int f, int chbit, int cmd)
 			tc->unflushed = 0;
 			if (tc->poisoned) {
 				tc->poisoned = 0; tc->poison_why = NULL;
-				if (QON(m, Q_PEN_ATTRIBUTES)) tc->pen.unk = U_FG | U_IT | U_UL | U_FL | U_BG;
+				if (QON(m, Q_ATTRS_SURVIVE_ROW_END)) tc->pen.unk = U_FG | U_IT | U_UL | U_FL | U_BG;
 			}
 		} else if (txt) tc->unflushed = 0;
 		else if (tc->unflushed) m_poison(m, tc, "TR (not clearing) moved the cursor away from a row with a pending word");
 		tc->row = 0; tc->col = 1; tc->stuck = 0; tc->cursor_known = 1;
-		if (!QON(m, Q_PEN_ATTRIBUTES)) tc->pen = tc->pac = m_default_attr;
+		if (!QON(m, Q_ATTRS_SURVIVE_ROW_END)) tc->pen = tc->pac = m_default_attr;
 		goto text_selected;
 	case 0xB: /* RTD */
 		tc->last_cmd = CL_RTD;
